@@ -235,6 +235,9 @@ func propC08(p *Prog, r *Report) {
 			key = s.root.Key + " via " + key
 		}
 		table = append(table, map[string]any{"site": key, "pos": s.pos, "role": s.role, "in_loop": s.inLoop})
+		if s.role == "" && strings.HasPrefix(shortPath(s.fn.Pkg.PkgPath), "cmd/migrate") {
+			s.role = "OFFLINE" // the migration tool runs on a database nobody else has open
+		}
 		if s.role == "" {
 			r.Undecided("C08.c", "seq-role/"+key, s.pos, "a new call site of sequence.Next is not classified: its role decides which exclusion it needs")
 			continue
